@@ -14,8 +14,10 @@ static char cs_at(const struct CStr* s, int i) {
   return s->data[i];
 }
 /* <cctype> in the C locale (assumed tables) */
-static int vf_isspace(int c) { return c == ' ' || (c >= 9 && c <= 13); }
-static int vf_tolower(int c) { return (c >= 'A' && c <= 'Z') ? c + ('a' - 'A') : c; }
+#define VF_ISSPACE(c) ((c) == ' ' || ((c) >= 9 && (c) <= 13))
+#define VF_TOLOWER(c) (((c) >= 'A' && (c) <= 'Z') ? (c) + ('a' - 'A') : (c))
+static int vf_isspace(int c) { return VF_ISSPACE(c); }
+static int vf_tolower(int c) { return VF_TOLOWER(c); }
 static int vf_isupper(int c) { return c >= 'A' && c <= 'Z'; }
 
 /* String(): empty text */
@@ -28,13 +30,13 @@ static struct CStr cs_substr(const struct CStr* in, int pos, int n) {
   __CPROVER_assert(0 <= n && n <= in->len - pos, "std::string(str,pos,n): n within the source (no clipping relied upon)");
   struct CStr r; r.data = in->data + pos; r.len = n; return r;
 }
-/* String(in): a copy with its own storage */
-void cs_copy(struct CStr* out, const struct CStr* in)
-__CPROVER_requires(__CPROVER_rw_ok(out, sizeof(*out)) && __CPROVER_r_ok(in, sizeof(*in)))
-__CPROVER_requires(in->len >= 0 && in->len < 2147483647 && __CPROVER_r_ok(in->data, in->len + 1))
-__CPROVER_assigns(*out)
-__CPROVER_ensures(out->len == in->len)
-__CPROVER_ensures(__CPROVER_is_fresh(out->data, in->len + 1))
-__CPROVER_ensures((0 <= gk_idx && gk_idx < in->len) ==> out->data[gk_idx] == in->data[gk_idx])
-__CPROVER_ensures(in->len > 0 ==> (out->data[0] == in->data[0] && out->data[in->len - 1] == in->data[in->len - 1]))
-;
+/* String(in): a copy with its own storage (std::string copy constructor, assumed) */
+#include <stdlib.h>
+#include <string.h>
+static void cs_copy(struct CStr* out, const struct CStr* in) {
+  __CPROVER_assert(in->len >= 0, "length");
+  out->data = malloc((unsigned long)in->len + 1);
+  __CPROVER_assume(out->data != 0);
+  memcpy(out->data, in->data, (unsigned long)in->len + 1);
+  out->len = in->len;
+}
